@@ -302,6 +302,41 @@ pub fn run(only: &[String]) -> Vec<String> {
         }}}}
     }
 
+    if want("Runner::run") || want("Runner::run_one") {
+        // hooks that CHANGE the e-graph (C15 quantifies over all hooks; a hook gets `&mut Runner`): one that inserts a new term per
+        // call ("lemma injection"), one that asserts an equation between two tracked sub-terms (the e-graph shrinks by congruence).
+        // Whatever the hook did, the report's node count is the e-graph's and a NodeLimit stop is true of the e-graph handed back.
+        let mut n = 0;
+        for t in terms() { for idx in [vec![], vec![0usize, 1], vec![11], vec![0, 1, 2, 5, 6]] { for (iter_limit, node_limit) in [(3usize, 10_000usize), (5, 6), (5, 9), (5, 14), (1, 10_000)] { for kind in [0usize, 1] {
+            verif_case(format!("Runner with a mutating hook: term {} rules {:?} iter_limit {} node_limit {} hook kind {}", t, idx, iter_limit, node_limit, kind));
+            let (eg, tracked) = start::<()>(t);
+            let mut runner: Runner<RL, (), (), String> = Runner::new(()).with_egraph(eg).with_iter_limit(iter_limit).with_node_limit(node_limit);
+            let tr = tracked.clone();
+            let mut k = 0u32;
+            runner = runner.with_hook(move |r: &mut Runner<RL, (), (), String>| {
+                k += 1;
+                if kind == 0 {
+                    r.egraph.add_expr(RecExpr::<RL>::parse(&format!("(mul (add {} {}) {})", 100 + k, 200 + k, 300 + k)).unwrap());
+                } else if tr.len() >= 2 {
+                    let a = tr[(k as usize) % tr.len()].clone(); let b = tr[(k as usize * 7 + 1) % tr.len()].clone();
+                    // only closed equations between classes without slots are asserted (a union must not capture slots)
+                    if r.egraph.slots(a.id).is_empty() && r.egraph.slots(b.id).is_empty() { r.egraph.union(&a, &b); }
+                    else { r.egraph.add_expr(RecExpr::<RL>::parse(&format!("(sub {} {})", k, k)).unwrap()); let x = r.egraph.add_expr(RecExpr::<RL>::parse(&format!("{}", k)).unwrap()); let y = r.egraph.add_expr(RecExpr::<RL>::parse(&format!("{}", k + 1000)).unwrap()); r.egraph.union(&x, &y); }
+                }
+                Ok(())
+            });
+            let report = runner.run(&mk_rules::<()>(&idx));
+            let nodes = { let mut c = 0; for i in runner.egraph.ids() { c += runner.egraph.enodes(i).len(); } c };
+            let desc = format!("mutating hook kind {}: term {} rules {:?} iter_limit {} node_limit {}", kind, t, idx, iter_limit, node_limit);
+            let mut bad: Option<(&str, String)> = None;
+            if report.egraph_nodes != nodes { bad = Some(("C15:report.nodes", format!("report says {} nodes, the classes hold {} (stop reason {:?})", report.egraph_nodes, nodes, report.stop_reason))); }
+            if let StopReason::NodeLimit = report.stop_reason { if nodes <= node_limit { bad = Some(("C15:run.node-limit-true", format!("stopped for the node limit {} with {} nodes", node_limit, nodes))); } }
+            if let StopReason::IterationLimit = report.stop_reason { if report.iterations <= iter_limit { bad = Some(("C15:run.iteration-limit-true", format!("stopped for the iteration limit {} after {} iterations", iter_limit, report.iterations))); } }
+            if report.iterations > iter_limit + 2 { bad = Some(("C15:run.bound", format!("{} iterations with iter_limit {}", report.iterations, iter_limit))); }
+            if let Some((c, m)) = bad { if n < 3 { n += 1; fails.push(format!("FAIL Runner::run {} {}: {}", c, desc, m)); } }
+        }}}}
+    }
+
     if want("apply_rewrites") || want("Runner::run") || want("run_eqsat") {
         // under an analysis whose modify hook unions classes: instantiating a right side can already merge it into the
         // left side's class, so "the final union did nothing" does not mean "nothing changed"
@@ -377,6 +412,9 @@ pub fn run(only: &[String]) -> Vec<String> {
         }}}}
     }
 
+    // direct call with today's parameter list; compiled out (`--cfg verif_api_only`) when an edit changed the signature,
+    // so that the API-level sections above (Runner::run, run_eqsat, apply_rewrites) still build and run
+    #[cfg(not(verif_api_only))]
     if want("RunnerLimits::check_limits") {
         let (mut eg, _) = start::<()>("(add (mul (var $1) (var $2)) (mul (var $2) (var $1)))");
         let nodes = { let mut k = 0; for i in eg.ids() { k += eg.enodes(i).len(); } k };
